@@ -119,7 +119,7 @@ class ModuleWrapTransformation(Transformation):
                 # Add the module wrapped but ignored items to the block list because we won't be able to
                 # find them as dependencies under their new name anymore
                 item.config['block'] = as_tuple(item.block) + tuple(
-                    module_name for name in item.ignore if name in matched_keys
+                    module_name for name in item.ignore if name.lower() in matched_keys
                 )
 
         # Transformer map to remove any outdated imports
